@@ -14,6 +14,7 @@ def run(chk):
                   strat=lambda g: (g['lab']['ow'], str(g['lab']['reply']['idx']), g['lab']['sort'],
                                    tuple(sorted((e['o'] for e in g['pre']['live']))),
                                    tuple(sorted(i['o'] for i in g['pre']['items']))), per_stratum=1)
+    common.gen_tt(chk, 'clobber-same-destination', 'Init_ClobberSame', 'Next_ClobberSame', 13, None, thorough_seeds=2)
 
 
 def replay(path):
